@@ -143,21 +143,29 @@ fn c18(ctx: &Ctx) -> i32 {
         crate::par::run(ctx, n, deadline(ctx, 60, 900), |i, rng, out| storage_seq::c18_storage_scenario(&ctx.prop, i, rng, out, &dir, &cfg, None))
     };
     let _ = std::fs::remove_dir_all(&dir);
+    let mut out = out;
+    if ctx.replay.is_none() {
+        // history half: last-message pointer + ordering after every step of simulator histories
+        let (_, hout) = histcheck::run_outcome(ctx);
+        out.merge(hout);
+    }
     let floors = if ctx.replay.is_some() {
         vec![]
     } else {
         vec![
             Floor { what: "listings with >= 2 messages", have: out.get("listings_with_2plus_messages"), need: 500 },
             Floor { what: "listings with a full timestamp tie", have: out.get("listings_with_full_timestamp_tie"), need: 100 },
+            Floor { what: "pointer checks on histories", have: out.get("c18_pointer_checks"), need: 3000 },
+            Floor { what: "pointer checks with invalidated messages present", have: out.get("c18_checks_with_invalidated_messages"), need: 20 },
         ]
     };
     finish(
         ctx,
         "exploration",
-        "storage half: random message sets (5 ids reused across 3 groups, created_at/processed_at drawn from 3 values so that ties in either or both occur, arbitrary insertion order, overwrites, state flips) on both backends; every listing is compared with the documented total order computed independently, pages of limit 1/2/3 are concatenated and compared with the full list, limits 0 / 10001 / usize::MAX must be refused, last_message must equal the head; distinct = distinct operation lists with >= 3 message writes",
+        "two halves. (1) storage: random message sets (5 ids reused across 3 groups, created_at/processed_at drawn from 3 values so that ties in either or both occur, arbitrary insertion order, overwrites, state flips) on both backends; every listing is compared with the documented total order computed independently, pages of limit 1/2/3 are concatenated and compared with the full list, limits 0 / 10001 / usize::MAX must be refused, last_message must equal the head. (2) histories: after every step of simulator histories (own and others' messages, late, re-delivered, invalidated by rollback) the acting client's listing must be in the documented order and group.last_message_id must designate the first non-invalidated message of the default order (or nothing); distinct = distinct operation lists with >= 3 message writes / distinct schedules with a canonical commit",
         out,
         floors,
-        vec!["storage-level half only in this command; the last-message pointer half runs on simulator histories".into()],
+        vec!["processed_at comes from the wall clock (1 s granularity) in the history half, so processed_at ties arise naturally and are not forced".into()],
         json!({}),
     )
 }
